@@ -4,6 +4,7 @@ import FractopoModel.Generated.IndexMargins
 import FractopoModel.Generated.SnapConstants
 import FractopoModel.Generated.JunctionShift
 import FractopoModel.Props.C08
+import FractopoModel.Generated.ValidationUtils
 /-!
 # C16 — spatial indexing is a pure optimisation
 
@@ -180,5 +181,45 @@ theorem C16_boundary_lines_transparent (areas : List A) (wq1 wq2 : A → List Na
   rw [e1 wq1 h1, e1 wq2 h2, e2 wq1 h1, e2 wq2 h2]
 
 end BoundaryLines
+
+/-! ### the candidate search of the validators -/
+
+section Candidates
+variable {G : Type}
+
+/-- **What `determine_trace_candidates` returns** (regenerated): the traces at the positions the index reports for the bounds of the
+trace extended by `extend_bounds_by` on every side, the trace's own position removed (a `ValueError` of `list.remove` when the index
+does not report it), non-LineStrings dropped, in index order. -/
+theorem C16_generated_validation_candidates (bounds_of : G → Rat × Rat × Rat × Rat) (index_query : Rat × Rat × Rat × Rat → List Nat) (is_ls : G → Bool)
+    (geom : G) (idx : Nat) (traces : List G) (e : Rat) :
+    Gen.determine_trace_candidates bounds_of index_query is_ls geom idx traces e =
+      (let b := bounds_of geom
+       let hits := index_query (b.1 - e, b.2.1 - e, b.2.2.1 + e, b.2.2.2 + e)
+       if hits.contains idx then .ok (((hits.erase idx).filterMap fun i => traces[i]?).filter is_ls) else .error "ValueError") := by
+  unfold Gen.determine_trace_candidates
+  obtain ⟨a, b, c, d⟩ := bounds_of geom
+  simp only [Bool.false_eq_true, if_false, List.elem_eq_contains]
+  split <;> simp_all
+
+/-- **Every trace within reach is a candidate**: if the index reports every position whose bounds meet the window (the law of a
+spatial index: it may report more, never less) then every LineString trace other than the validated one whose bounds meet the
+extended window is among the candidates -- whatever else the index reports. With `C16_validation_margin` (the window extension
+covers every validator's reach) no verdict can depend on the index. -/
+theorem C16_candidates_complete (bounds_of : G → Rat × Rat × Rat × Rat) (index_query : Rat × Rat × Rat × Rat → List Nat) (is_ls : G → Bool)
+    (geom : G) (idx : Nat) (traces : List G) (e : Rat) (cands : List G) (j : Nat) (g : G)
+    (h : Gen.determine_trace_candidates bounds_of index_query is_ls geom idx traces e = .ok cands)
+    (hj : j ∈ index_query ((bounds_of geom).1 - e, (bounds_of geom).2.1 - e, (bounds_of geom).2.2.1 + e, (bounds_of geom).2.2.2 + e))
+    (hne : j ≠ idx) (hg : traces[j]? = some g) (hls : is_ls g = true) : g ∈ cands := by
+  rw [C16_generated_validation_candidates] at h
+  simp only at h
+  split at h
+  · cases h
+    rw [List.mem_filter]
+    refine ⟨?_, hls⟩
+    rw [List.mem_filterMap]
+    exact ⟨j, (List.mem_erase_of_ne hne).mpr hj, hg⟩
+  · cases h
+
+end Candidates
 
 end C16
